@@ -1,5 +1,6 @@
 (* C20 - Scalar functions and arithmetic match their definitions.
-   Property theorems only (proofs in Proof/Arith.v ...).
+   Property theorems only (proofs in Proof/Arith.v ...).  Models follow the REPAIRED tree (fix commits 6ca9f39 c7e0f53
+   9fda373 e5e0a82 44ef577 d9dc553); the findings they repaired are kept below as witnesses that now evaluate correctly.
    Model/Arith.v transcribes the integer side of CompiledPredicate::eval_value / eval_binary_op /
    eval_unary_op (src/sql/predicate.rs), the integer paths of src/sql/functions/numeric.rs and the
    control-flow functions of src/sql/functions/system.rs; [exact] / [fn_exact] are the documented
@@ -10,62 +11,72 @@
    REGENERATED from that file (Gen/CalFunc.v); the Spec is the calendar of Model/Calendar.v (C41). *)
 From Coq Require Import ZArith List Bool.
 From TV Require Import Lib.MachInt Model.Arith Model.Utf8 Model.StrFun Model.Calendar Model.DateFun Model.Cast.
+From TV Require Gen.CalFunc.
 From TV Require Import Proof.Arith Proof.Utf8 Proof.StrFind Proof.StrFun Proof.DateFun Proof.Cast.
 Import ListNotations.
 Open Scope Z_scope.
 
 (* ---------------------------------------------------------------- integer arithmetic *)
-(* every expression tree over + - * / % ^ << >> & | unary - + ~, integer literals and NULL, that is
-   outside the two recorded finding classes: when every step's exact result is an i64, SELECT shows
-   exactly that integer *)
-Theorem arith_in_range_correct : forall e z, wf e = true -> arith_class e = 0 ->
-  exact e = XInt z -> eval e = OVal (VInt z).
+(* EVERY expression tree over + - * / % ^ << >> & | unary - + ~, integer literals and NULL: when every
+   step's exact result is an i64, SELECT shows exactly that integer (no class hypothesis any more) *)
+Theorem arith_in_range_correct : forall e z, wf e = true -> exact e = XInt z -> eval e = OVal (VInt z).
 Proof. exact arith_in_range_correct_l. Qed.
 
 (* ... NULL operands, x / 0, x % 0 (and shift counts outside 0..63) show NULL *)
-Theorem arith_null : forall e, wf e = true -> arith_class e = 0 ->
+Theorem arith_null : forall e, wf e = true ->
   (exact e = XNullP \/ exact e = XDivZ \/ exact e = XAny) -> to_sql (eval e) = OVal VNull.
 Proof. exact arith_null_l. Qed.
 
-(* ... so outside the recorded classes no expression panics, and what SELECT shows satisfies the property *)
+(* ... and no expression panics *)
+Theorem arith_never_panics : forall e, wf e = true ->
+  eval e <> OPanic /\ eval e <> OFuel /\ eval e <> OUnmod /\ eval e <> OErr.
+Proof. exact arith_never_panics_l. Qed.
+
+(* outside the one remaining class (exact e = XOver) what SELECT shows satisfies the property *)
 Theorem arith_class0_ok : forall e, wf e = true -> arith_class e = 0 ->
-  exact e <> XOver /\ obs_ok (exact e) (to_sql (eval e)) = true.
+  obs_ok (exact e) (to_sql (eval e)) = true.
 Proof. exact arith_class0_ok_l. Qed.
 
 Theorem div_zero_null : forall a, in_i64 a = true ->
   eval_bin Div (VInt a) (VInt 0) = ONone /\ eval_bin Rem (VInt a) (VInt 0) = ONone.
 Proof. exact div_zero_null_l. Qed.
 
-(* the property does NOT hold in general: the evaluator uses unchecked i64 operators, which panic
-   (suite profile) where an error is required: i64::MAX + 1, i64::MIN / -1, -(i64::MIN), 2 ^ 64,
-   i64::MIN % -1 (exact result 0), 2^32 * 2^32 *)
-Theorem arith_no_panic_refuted :
-  eval (EBin Add (ELit i64_max) (ELit 1)) = OPanic /\ exact (EBin Add (ELit i64_max) (ELit 1)) = XOver /\
-  eval (EBin Div lit_min (EUn Neg (ELit 1))) = OPanic /\ exact (EBin Div lit_min (EUn Neg (ELit 1))) = XOver /\
-  eval (EUn Neg lit_min) = OPanic /\ exact (EUn Neg lit_min) = XOver /\
-  eval (EBin Pow (ELit 2) (ELit 64)) = OPanic /\ exact (EBin Pow (ELit 2) (ELit 64)) = XOver /\
-  eval (EBin Rem lit_min (EUn Neg (ELit 1))) = OPanic /\ exact (EBin Rem lit_min (EUn Neg (ELit 1))) = XInt 0 /\
-  eval (EBin Mul (ELit 4294967296) (ELit 4294967296)) = OPanic.
-Proof. exact arith_no_panic_refuted_l. Qed.
+(* F-C20-1 as it stands on the repaired code - the property does NOT hold in general: where some step's
+   exact result is not an i64 the property demands an ERROR; the evaluator (eval_value returns Option, no
+   error channel) shows NULL.  Exactly that, for every such expression: *)
+Theorem arith_overflow_shows_null : forall e, wf e = true -> arith_class e = 1 ->
+  exact e = XOver /\ to_sql (eval e) = OVal VNull /\ obs_ok (exact e) (to_sql (eval e)) = false.
+Proof. exact arith_overflow_shows_null_l. Qed.
 
-(* ... and `a.pow(b as u32)` cuts the exponent to 32 bits: 0 ^ 4294967296 shows 1 *)
-Theorem pow_exponent_truncated :
-  eval (EBin Pow (ELit 0) (ELit 4294967296)) = OVal (VInt 1) /\ exact (EBin Pow (ELit 0) (ELit 4294967296)) = XInt 0 /\
-  arith_class (EBin Pow (ELit 0) (ELit 4294967296)) = 2.
-Proof. exact pow_exponent_truncated_l. Qed.
+(* witnesses: i64::MAX + 1, i64::MIN / -1, -(i64::MIN), 2 ^ 64 give None (NULL; they panicked before d9dc553);
+   historical F-C20-1 panic i64::MIN % -1 is now 0; historical F-C20-2 (exponent cut to 32 bits):
+   0 ^ 4294967296 = 0, (-1) ^ 4294967297 = -1, 2 ^ 4294967297 is not representable *)
+Theorem arith_witnesses :
+  wf (EBin Add (ELit i64_max) (ELit 1)) = true /\ arith_class (EBin Add (ELit i64_max) (ELit 1)) = 1 /\
+  eval (EBin Add (ELit i64_max) (ELit 1)) = ONone /\
+  eval lit_min = OVal (VInt i64_min) /\
+  eval (EBin Div lit_min (EUn Neg (ELit 1))) = ONone /\ exact (EBin Div lit_min (EUn Neg (ELit 1))) = XOver /\
+  eval (EUn Neg lit_min) = ONone /\ eval (EBin Pow (ELit 2) (ELit 64)) = ONone /\
+  eval (EBin Rem lit_min (EUn Neg (ELit 1))) = OVal (VInt 0) /\
+  eval (EBin Pow (ELit 0) (ELit 4294967296)) = OVal (VInt 0) /\ exact (EBin Pow (ELit 0) (ELit 4294967296)) = XInt 0 /\
+  eval (EBin Pow (EUn Neg (ELit 1)) (ELit 4294967297)) = OVal (VInt (-1)) /\
+  eval (EBin Pow (ELit 2) (ELit 4294967297)) = ONone /\ exact (EBin Pow (ELit 2) (ELit 4294967297)) = XOver.
+Proof. exact arith_witnesses_l. Qed.
 
 (* ---------------------------------------------------------------- numeric functions on integers *)
 Theorem unary_fn_correct : forall n, in_i64 n = true ->
   (n <> i64_min -> eval_nfn FAbs [VInt n] = OVal (VInt (Z.abs n))) /\
   eval_nfn FSign [VInt n] = OVal (VInt (Z.sgn n)) /\
   eval_nfn FCeil [VInt n] = OVal (VInt n) /\ eval_nfn FFloor [VInt n] = OVal (VInt n) /\
-  (Z.abs n <= 2 ^ 53 -> eval_nfn FRound [VInt n] = OVal (VInt n) /\ eval_nfn FTrunc [VInt n] = OVal (VInt n) /\
-                         eval_nfn FRound [VInt n; VInt 0] = OVal (VInt n) /\ eval_nfn FTrunc [VInt n; VInt 0] = OVal (VInt n)).
+  eval_nfn FRound [VInt n] = OVal (VInt n) /\ eval_nfn FTrunc [VInt n] = OVal (VInt n) /\
+  (forall d, 0 <= d -> in_i64 d = true ->
+     eval_nfn FRound [VInt n; VInt d] = OVal (VInt n) /\ eval_nfn FTrunc [VInt n; VInt d] = OVal (VInt n)).
 Proof. exact unary_fn_correct_l. Qed.
 
+(* MOD and DIV: exact on every pair of i64 (MOD no longer goes through f64) *)
 Theorem mod_div_correct : forall a b, in_i64 a = true -> in_i64 b = true ->
   (b = 0 -> eval_nfn FMod [VInt a; VInt b] = OVal VNull /\ eval_nfn FDivI [VInt a; VInt b] = OVal VNull) /\
-  (b <> 0 -> Z.abs a <= 2 ^ 53 -> Z.abs b <= 2 ^ 53 -> eval_nfn FMod [VInt a; VInt b] = OVal (VFltI (Z.rem a b))) /\
+  (b <> 0 -> eval_nfn FMod [VInt a; VInt b] = OVal (VInt (Z.rem a b))) /\
   (b <> 0 -> ~ (a = i64_min /\ b = -1) -> eval_nfn FDivI [VInt a; VInt b] = OVal (VInt (Z.quot a b))).
 Proof. exact mod_div_correct_l. Qed.
 
@@ -82,14 +93,15 @@ Theorem fn_null :
   to_sql (eval_nfn FRound [VNull]) = OVal VNull /\ to_sql (eval_nfn FTrunc [VNull]) = OVal VNull.
 Proof. exact fn_null_l. Qed.
 
-(* ABS(i64::MIN) and DIV(i64::MIN, -1) panic; integers beyond 2^53 come back changed from ROUND / MOD *)
-Theorem fn_refuted :
-  eval_nfn FAbs [VInt i64_min] = OPanic /\ fn_exact FAbs [VInt i64_min] = XOver /\
-  eval_nfn FDivI [VInt i64_min; VInt (-1)] = OPanic /\ fn_exact FDivI [VInt i64_min; VInt (-1)] = XOver /\
-  eval_nfn FRound [VInt 9007199254740993] = OVal (VInt 9007199254740992) /\
-  eval_nfn FMod [VInt 9007199254740993; VInt 2] = OVal (VFltI 0) /\ fn_exact FMod [VInt 9007199254740993; VInt 2] = XInt 1 /\
-  nfn_class FRound [VInt 9007199254740993] = 3 /\ nfn_class FAbs [VInt i64_min] = 1.
-Proof. exact fn_refuted_l. Qed.
+(* ABS(i64::MIN) and DIV(i64::MIN, -1): None (NULL) where an error is required (class 1; they panicked);
+   historical F-C20-3: ROUND / MOD on integers beyond 2^53 are exact now *)
+Theorem fn_witnesses :
+  eval_nfn FAbs [VInt i64_min] = ONone /\ fn_exact FAbs [VInt i64_min] = XOver /\ nfn_class FAbs [VInt i64_min] = 1 /\
+  eval_nfn FDivI [VInt i64_min; VInt (-1)] = ONone /\ fn_exact FDivI [VInt i64_min; VInt (-1)] = XOver /\
+  eval_nfn FRound [VInt 9007199254740993] = OVal (VInt 9007199254740993) /\
+  eval_nfn FMod [VInt 9007199254740993; VInt 2] = OVal (VInt 1) /\ fn_exact FMod [VInt 9007199254740993; VInt 2] = XInt 1 /\
+  nfn_class FRound [VInt 9007199254740993] = 0.
+Proof. exact fn_witnesses_l. Qed.
 
 (* ---------------------------------------------------------------- UTF-8 *)
 (* encode / decode are inverse bijections between lists of Unicode scalar values and the byte strings
@@ -134,7 +146,7 @@ Theorem slicing_on_chars : forall cs n, cps_ok cs = true ->
   eval_sfn SReverse [VText (encode_utf8 cs)] = OVal (VText (encode_utf8 (rev cs))).
 Proof. exact slicing_l. Qed.
 
-Theorem substr_on_chars : forall cs pos len, cps_ok cs = true -> pos <> i64_min ->
+Theorem substr_on_chars : forall cs pos len, cps_ok cs = true ->
   eval_sfn SSubstr [VText (encode_utf8 cs); VInt pos; VInt len] =
     OVal (VText (encode_utf8 (
       if pos =? 0 then [] else
@@ -145,34 +157,24 @@ Theorem substr_on_chars : forall cs pos len, cps_ok cs = true -> pos <> i64_min 
       if pos =? 0 then [] else skip_z (if 0 <? pos then pos - 1 else Z.max 0 (zlen cs + pos)) cs))).
 Proof. exact substr_l. Qed.
 
-Theorem substr_spec_ok : forall cs pos len, cps_ok cs = true -> pos <> i64_min ->
+Theorem substr_spec_ok : forall cs pos len, cps_ok cs = true ->
   str_obs_ok (str_exact SSubstr [VText (encode_utf8 cs); VInt pos; VInt len])
              (eval_sfn SSubstr [VText (encode_utf8 cs); VInt pos; VInt len]) = true /\
   str_obs_ok (str_exact SSubstr [VText (encode_utf8 cs); VInt pos])
              (eval_sfn SSubstr [VText (encode_utf8 cs); VInt pos]) = true.
 Proof. exact substr_spec_ok_l. Qed.
 
-(* INSTR answers with the BYTE offset of the match ... *)
-Theorem instr_byte_offset : forall h n, cps_ok h = true -> cps_ok n = true ->
+(* INSTR converts the byte offset of str::find by slicing and counting: the slice always ends on a character
+   boundary (no panic) and the answer is the CHARACTER position, for every valid UTF-8 input (F-C20-4 repaired) *)
+Theorem instr_on_chars : forall h n, cps_ok h = true -> cps_ok n = true ->
   eval_sfn SInstr [VText (encode_utf8 h); VText (encode_utf8 n)] =
-    OVal (VInt (match find_pre n h with Some pre => blen (encode_utf8 pre) + 1 | None => 0 end)).
+    OVal (VInt (match find_pre n h with Some pre => zlen pre + 1 | None => 0 end)).
 Proof. exact instr_l. Qed.
 
-(* ... the character position when only one-byte characters precede the match (class 0) ... *)
-Theorem instr_class0_correct : forall h n, cps_ok h = true -> cps_ok n = true ->
-  sfn_class SInstr [VText (encode_utf8 h); VText (encode_utf8 n)] = 0 ->
-  eval_sfn SInstr [VText (encode_utf8 h); VText (encode_utf8 n)] =
-    OVal (VInt (match find_pre n h with Some pre => zlen pre + 1 | None => 0 end)) /\
+Theorem instr_spec_ok : forall h n, cps_ok h = true -> cps_ok n = true ->
   str_obs_ok (str_exact SInstr [VText (encode_utf8 h); VText (encode_utf8 n)])
              (eval_sfn SInstr [VText (encode_utf8 h); VText (encode_utf8 n)]) = true.
-Proof. exact instr_class0_l. Qed.
-
-(* ... and a wrong position in every other case (class 4) *)
-Theorem instr_class4_wrong : forall h n, cps_ok h = true -> cps_ok n = true ->
-  sfn_class SInstr [VText (encode_utf8 h); VText (encode_utf8 n)] = 4 ->
-  str_obs_ok (str_exact SInstr [VText (encode_utf8 h); VText (encode_utf8 n)])
-             (eval_sfn SInstr [VText (encode_utf8 h); VText (encode_utf8 n)]) = false.
-Proof. exact instr_class4_wrong_l. Qed.
+Proof. exact instr_spec_ok_l. Qed.
 
 (* LOCATE converts the byte offset back by slicing and counting: the slice always ends on a character
    boundary (no panic) and the answer is the character position *)
@@ -204,6 +206,10 @@ Theorem pad_on_chars : forall cs pcs n, cps_ok cs = true -> cps_ok pcs = true ->
      zlen (cycle pcs (n - zlen cs) ++ cs) = n /\ zlen (cs ++ cycle pcs (n - zlen cs)) = n).
 Proof. exact pad_l. Qed.
 
+Theorem pad_negative_null : forall s p n, n < 0 ->
+  eval_sfn SLpad [VText s; VInt n; VText p] = OVal VNull /\ eval_sfn SRpad [VText s; VInt n; VText p] = OVal VNull.
+Proof. exact pad_negative_l. Qed.
+
 Theorem trim_on_chars : forall cs, cps_ok cs = true ->
   eval_sfn STrim [VText (encode_utf8 cs)] = OVal (VText (encode_utf8 (trim_by is_ws cs))) /\
   eval_sfn SLtrim [VText (encode_utf8 cs)] = OVal (VText (encode_utf8 (trim_start_by is_ws cs))) /\
@@ -234,19 +240,20 @@ Theorem str_null_in_null_out : forall s n p,
   to_sql (eval_sfn SLpad [VNull; VInt n; VText p]) = OVal VNull /\ to_sql (eval_sfn SLpad [VText s; VNull; VText p]) = OVal VNull /\
   to_sql (eval_sfn SLpad [VText s; VInt n; VNull]) = OVal VNull /\ to_sql (eval_sfn SRpad [VText s; VInt n; VNull]) = OVal VNull /\
   to_sql (eval_sfn SRepeat [VNull; VInt n]) = OVal VNull /\ to_sql (eval_sfn SRepeat [VText s; VNull]) = OVal VNull /\
-  to_sql (eval_sfn STrim [VNull]) = OVal VNull /\ to_sql (eval_sfn SStrcmp [VText s; VNull]) = OVal VNull.
+  to_sql (eval_sfn STrim [VNull]) = OVal VNull /\ to_sql (eval_sfn SStrcmp [VText s; VNull]) = OVal VNull /\
+  to_sql (eval_sfn SSubstr [VText s; VInt n; VNull]) = OVal VNull /\ to_sql (eval_sfn SLocate [VText p; VText s; VNull]) = OVal VNull.
 Proof. exact str_null_l. Qed.
 
-(* the property does NOT hold in general: INSTR('ea' with e-acute, 'a') = 3 (character position 2);
-   SUBSTR('abc', i64::MIN) and LPAD('a', -1, 'x') panic; SUBSTR('abc', 2, NULL) = 'bc' *)
-Theorem str_refuted :
-  eval_sfn SInstr [VText [195; 169; 97]; VText [97]] = OVal (VInt 3) /\
-  str_exact SInstr [VText [195; 169; 97]; VText [97]] = SInt 2 /\ sfn_class SInstr [VText [195; 169; 97]; VText [97]] = 4 /\
-  eval_sfn SSubstr [VText [97; 98; 99]; VInt i64_min] = OPanic /\ sfn_class SSubstr [VText [97; 98; 99]; VInt i64_min] = 5 /\
-  eval_sfn SLpad [VText [97]; VInt (-1); VText [120]] = OPanic /\ sfn_class SLpad [VText [97]; VInt (-1); VText [120]] = 6 /\
-  eval_sfn SSubstr [VText [97; 98; 99]; VInt 2; VNull] = OVal (VText [98; 99]) /\
-  str_exact SSubstr [VText [97; 98; 99]; VInt 2; VNull] = SNull /\ sfn_class SSubstr [VText [97; 98; 99]; VInt 2; VNull] = 7.
-Proof. exact str_refuted_l. Qed.
+(* historical findings F-C20-4 .. F-C20-7, repaired: INSTR('ea' with e-acute, 'a') = 2 (was 3); SUBSTR('abc', i64::MIN) = 'abc'
+   (panicked); LPAD / RPAD('a', -1, 'x') = NULL (panic / endless loop); SUBSTR('abc', 2, NULL) = NULL (was 'bc') *)
+Theorem str_witnesses :
+  eval_sfn SInstr [VText [195; 169; 97]; VText [97]] = OVal (VInt 2) /\
+  str_exact SInstr [VText [195; 169; 97]; VText [97]] = SInt 2 /\
+  eval_sfn SSubstr [VText [97; 98; 99]; VInt i64_min] = OVal (VText [97; 98; 99]) /\
+  eval_sfn SLpad [VText [97]; VInt (-1); VText [120]] = OVal VNull /\ eval_sfn SRpad [VText [97]; VInt (-1); VText [120]] = OVal VNull /\
+  eval_sfn SSubstr [VText [97; 98; 99]; VInt 2; VNull] = ONone /\
+  str_exact SSubstr [VText [97; 98; 99]; VInt 2; VNull] = SNull.
+Proof. exact str_witnesses_l. Qed.
 
 (* ---------------------------------------------------------------- date functions, every date of the years 1..9999 *)
 Theorem date_fields : forall y m d, real_date y m d = true ->
@@ -279,12 +286,22 @@ Proof. exact from_days_to_days_l. Qed.
 Theorem date_null_in_null_out : forall f rest, to_sql (eval_dfn f (DNullA :: rest)) = OVal VNull.
 Proof. exact date_null_l. Qed.
 
-(* huge day counts panic (unchecked i64 arithmetic in eval_date_add / days_to_date) *)
-Theorem date_refuted :
-  eval_dfn DDateAdd [DDate 2024 1 1; DNum i64_max] = OPanic /\ dfn_class DDateAdd [DDate 2024 1 1; DNum i64_max] = 8 /\
-  eval_dfn DFromDays [DNum i64_max] = OPanic /\ dfn_class DFromDays [DNum i64_max] = 8 /\
-  eval_dfn DDateSub [DDate 2024 1 1; DNum 92233720368547758] = OPanic.
-Proof. exact date_refuted_l. Qed.
+(* results outside 0001-01-01 .. 9999-12-31 are NULL whatever the day count: no panic (F-C20-8 repaired) *)
+Theorem date_out_of_range_null : forall y m d k n, fields_ok y m d = true ->
+  (in_i64 (CalFunc.date_to_days y m d + k) && day_number_ok (CalFunc.date_to_days y m d + k) = false ->
+     eval_dfn DDateAdd [DDate y m d; DNum k] = OVal VNull) /\
+  (in_i64 (CalFunc.date_to_days y m d - k) && day_number_ok (CalFunc.date_to_days y m d - k) = false ->
+     eval_dfn DDateSub [DDate y m d; DNum k] = OVal VNull) /\
+  (day_number_ok n = false -> eval_dfn DFromDays [DNum n] = OVal VNull).
+Proof. exact date_out_of_range_null_l. Qed.
+
+Theorem date_witnesses :
+  eval_dfn DDateAdd [DDate 2024 1 1; DNum i64_max] = OVal VNull /\
+  eval_dfn DFromDays [DNum i64_max] = OVal VNull /\ eval_dfn DFromDays [DNum 92233720368547758] = OVal VNull /\
+  eval_dfn DDateSub [DDate 2024 1 1; DNum 92233720368547758] = OVal VNull /\
+  eval_dfn DFromDays [DNum 0] = OVal VNull /\ eval_dfn DFromDays [DNum 3652060] = OVal VNull /\
+  eval_dfn DFromDays [DNum 3652059] = OVal (VText (fmt_date 9999 12 31)) /\ eval_dfn DFromDays [DNum 1] = OVal (VText (fmt_date 1 1 1)).
+Proof. exact date_witnesses_l. Qed.
 
 (* ---------------------------------------------------------------- CAST *)
 (* the decimal text of every i64 parses back to it: CAST(CAST(n AS TEXT) AS INTEGER) = n *)
@@ -302,19 +319,20 @@ Proof. exact cast_l. Qed.
 Example c20_arith_witness :
   let e := EBin Add (EBin Mul (ELit 3037000499) (ELit 3037000499)) (EUn Neg (EBin Pow (ELit 2) (ELit 62))) in
   wf e = true /\ arith_class e = 0 /\ exact e = XInt 4611686012498861097 /\ eval e = OVal (VInt 4611686012498861097) /\
+  wf lit_min = true /\ exact lit_min = XInt i64_min /\
   arith_class (EBin Div (ELit 7) (EBin Sub (ELit 1) (ELit 1))) = 0 /\ exact (EBin Div (ELit 7) (EBin Sub (ELit 1) (ELit 1))) = XDivZ /\
   exact (EBin Add ENull (ELit 1)) = XNullP /\ arith_class (EBin Add ENull (ELit 1)) = 0 /\
   exact (EBin Pow (EUn Neg (ELit 2)) (ELit 63)) = XInt i64_min /\ eval (EBin Pow (EUn Neg (ELit 2)) (ELit 63)) = OVal (VInt i64_min) /\
   arith_class (EBin Add (ELit i64_max) (ELit 1)) = 1.
 Proof. vm_compute. repeat split. Qed.
 
-(* 'h e-acute l l o' + combining acute + U+1D11E: 7 characters, 13 bytes; LEFT 2 = 'h e-acute'; INSTR of 'l' is right only because ... it is not: class 4 *)
+(* 'h e-acute l l o' + combining acute + U+1D11E: 7 characters, 12 bytes; LEFT 2 = 'h e-acute'; INSTR / LOCATE of 'l' = 3 *)
 Example c20_str_witness :
   let cs := [104; 233; 108; 108; 111; 769; 119070] in
   cps_ok cs = true /\ encode_utf8 cs = [104; 195; 169; 108; 108; 111; 204; 129; 240; 157; 132; 158] /\
   eval_sfn SCharLength [VText (encode_utf8 cs)] = OVal (VInt 7) /\ eval_sfn SLength [VText (encode_utf8 cs)] = OVal (VInt 12) /\
   eval_sfn SLeft [VText (encode_utf8 cs); VInt 2] = OVal (VText [104; 195; 169]) /\
-  sfn_class SInstr [VText (encode_utf8 cs); VText [108]] = 4 /\ sfn_class SInstr [VText (encode_utf8 cs); VText [104]] = 0 /\
+  eval_sfn SInstr [VText (encode_utf8 cs); VText [108]] = OVal (VInt 3) /\
   eval_sfn SLocate [VText [108]; VText (encode_utf8 cs)] = OVal (VInt 3) /\
   decode_utf8 [192; 128] = None /\ decode_utf8 [237; 160; 128] = None /\ decode_utf8 [244; 144; 128; 128] = None /\ decode_utf8 [226; 130] = None.
 Proof. vm_compute. repeat split. Qed.
@@ -333,17 +351,18 @@ Example c20_date_witness :
   eval_dfn DDayOfWeek [DDate 2024 2 29] = OVal (VInt 5) /\ eval_dfn DLastDay [DDate 1900 2 1] = OVal (VText (fmt_date 1900 2 28)).
 Proof. vm_compute. repeat split. Qed.
 
-Check arith_in_range_correct : forall e z, wf e = true -> arith_class e = 0 -> exact e = XInt z -> eval e = OVal (VInt z).
-Check arith_null : forall e, wf e = true -> arith_class e = 0 -> (exact e = XNullP \/ exact e = XDivZ \/ exact e = XAny) -> to_sql (eval e) = OVal VNull.
-Check arith_class0_ok : forall e, wf e = true -> arith_class e = 0 -> exact e <> XOver /\ obs_ok (exact e) (to_sql (eval e)) = true.
+Check arith_in_range_correct : forall e z, wf e = true -> exact e = XInt z -> eval e = OVal (VInt z).
+Check arith_null : forall e, wf e = true -> (exact e = XNullP \/ exact e = XDivZ \/ exact e = XAny) -> to_sql (eval e) = OVal VNull.
+Check arith_never_panics : forall e, wf e = true -> eval e <> OPanic /\ eval e <> OFuel /\ eval e <> OUnmod /\ eval e <> OErr.
+Check arith_class0_ok : forall e, wf e = true -> arith_class e = 0 -> obs_ok (exact e) (to_sql (eval e)) = true.
 Check div_zero_null : forall a, in_i64 a = true -> eval_bin Div (VInt a) (VInt 0) = ONone /\ eval_bin Rem (VInt a) (VInt 0) = ONone.
-Check arith_no_panic_refuted : eval (EBin Add (ELit i64_max) (ELit 1)) = OPanic /\ exact (EBin Add (ELit i64_max) (ELit 1)) = XOver /\ eval (EBin Div lit_min (EUn Neg (ELit 1))) = OPanic /\ exact (EBin Div lit_min (EUn Neg (ELit 1))) = XOver /\ eval (EUn Neg lit_min) = OPanic /\ exact (EUn Neg lit_min) = XOver /\ eval (EBin Pow (ELit 2) (ELit 64)) = OPanic /\ exact (EBin Pow (ELit 2) (ELit 64)) = XOver /\ eval (EBin Rem lit_min (EUn Neg (ELit 1))) = OPanic /\ exact (EBin Rem lit_min (EUn Neg (ELit 1))) = XInt 0 /\ eval (EBin Mul (ELit 4294967296) (ELit 4294967296)) = OPanic.
-Check pow_exponent_truncated : eval (EBin Pow (ELit 0) (ELit 4294967296)) = OVal (VInt 1) /\ exact (EBin Pow (ELit 0) (ELit 4294967296)) = XInt 0 /\ arith_class (EBin Pow (ELit 0) (ELit 4294967296)) = 2.
-Check unary_fn_correct : forall n, in_i64 n = true -> (n <> i64_min -> eval_nfn FAbs [VInt n] = OVal (VInt (Z.abs n))) /\ eval_nfn FSign [VInt n] = OVal (VInt (Z.sgn n)) /\ eval_nfn FCeil [VInt n] = OVal (VInt n) /\ eval_nfn FFloor [VInt n] = OVal (VInt n) /\ (Z.abs n <= 2 ^ 53 -> eval_nfn FRound [VInt n] = OVal (VInt n) /\ eval_nfn FTrunc [VInt n] = OVal (VInt n) /\ eval_nfn FRound [VInt n; VInt 0] = OVal (VInt n) /\ eval_nfn FTrunc [VInt n; VInt 0] = OVal (VInt n)).
-Check mod_div_correct : forall a b, in_i64 a = true -> in_i64 b = true -> (b = 0 -> eval_nfn FMod [VInt a; VInt b] = OVal VNull /\ eval_nfn FDivI [VInt a; VInt b] = OVal VNull) /\ (b <> 0 -> Z.abs a <= 2 ^ 53 -> Z.abs b <= 2 ^ 53 -> eval_nfn FMod [VInt a; VInt b] = OVal (VFltI (Z.rem a b))) /\ (b <> 0 -> ~ (a = i64_min /\ b = -1) -> eval_nfn FDivI [VInt a; VInt b] = OVal (VInt (Z.quot a b))).
+Check arith_overflow_shows_null : forall e, wf e = true -> arith_class e = 1 -> exact e = XOver /\ to_sql (eval e) = OVal VNull /\ obs_ok (exact e) (to_sql (eval e)) = false.
+Check arith_witnesses : wf (EBin Add (ELit i64_max) (ELit 1)) = true /\ arith_class (EBin Add (ELit i64_max) (ELit 1)) = 1 /\ eval (EBin Add (ELit i64_max) (ELit 1)) = ONone /\ eval lit_min = OVal (VInt i64_min) /\ eval (EBin Div lit_min (EUn Neg (ELit 1))) = ONone /\ exact (EBin Div lit_min (EUn Neg (ELit 1))) = XOver /\ eval (EUn Neg lit_min) = ONone /\ eval (EBin Pow (ELit 2) (ELit 64)) = ONone /\ eval (EBin Rem lit_min (EUn Neg (ELit 1))) = OVal (VInt 0) /\ eval (EBin Pow (ELit 0) (ELit 4294967296)) = OVal (VInt 0) /\ exact (EBin Pow (ELit 0) (ELit 4294967296)) = XInt 0 /\ eval (EBin Pow (EUn Neg (ELit 1)) (ELit 4294967297)) = OVal (VInt (-1)) /\ eval (EBin Pow (ELit 2) (ELit 4294967297)) = ONone /\ exact (EBin Pow (ELit 2) (ELit 4294967297)) = XOver.
+Check unary_fn_correct : forall n, in_i64 n = true -> (n <> i64_min -> eval_nfn FAbs [VInt n] = OVal (VInt (Z.abs n))) /\ eval_nfn FSign [VInt n] = OVal (VInt (Z.sgn n)) /\ eval_nfn FCeil [VInt n] = OVal (VInt n) /\ eval_nfn FFloor [VInt n] = OVal (VInt n) /\ eval_nfn FRound [VInt n] = OVal (VInt n) /\ eval_nfn FTrunc [VInt n] = OVal (VInt n) /\ (forall d, 0 <= d -> in_i64 d = true -> eval_nfn FRound [VInt n; VInt d] = OVal (VInt n) /\ eval_nfn FTrunc [VInt n; VInt d] = OVal (VInt n)).
+Check mod_div_correct : forall a b, in_i64 a = true -> in_i64 b = true -> (b = 0 -> eval_nfn FMod [VInt a; VInt b] = OVal VNull /\ eval_nfn FDivI [VInt a; VInt b] = OVal VNull) /\ (b <> 0 -> eval_nfn FMod [VInt a; VInt b] = OVal (VInt (Z.rem a b))) /\ (b <> 0 -> ~ (a = i64_min /\ b = -1) -> eval_nfn FDivI [VInt a; VInt b] = OVal (VInt (Z.quot a b))).
 Check greatest_least_correct : forall n t, in_i64 n = true -> Forall (fun v => exists k, v = VInt k /\ in_i64 k = true) t -> eval_nfn FGreatest (VInt n :: t) = OVal (VInt (fold_left Z.max (ints_of t) n)) /\ eval_nfn FLeast (VInt n :: t) = OVal (VInt (fold_left Z.min (ints_of t) n)).
 Check fn_null : eval_nfn FAbs [VNull] = OVal VNull /\ eval_nfn FSign [VNull] = OVal VNull /\ eval_nfn FCeil [VNull] = OVal VNull /\ eval_nfn FFloor [VNull] = OVal VNull /\ (forall v, to_sql (eval_nfn FMod [VNull; v]) = OVal VNull \/ eval_nfn FMod [VNull; v] = OUnmod) /\ to_sql (eval_nfn FRound [VNull]) = OVal VNull /\ to_sql (eval_nfn FTrunc [VNull]) = OVal VNull.
-Check fn_refuted : eval_nfn FAbs [VInt i64_min] = OPanic /\ fn_exact FAbs [VInt i64_min] = XOver /\ eval_nfn FDivI [VInt i64_min; VInt (-1)] = OPanic /\ fn_exact FDivI [VInt i64_min; VInt (-1)] = XOver /\ eval_nfn FRound [VInt 9007199254740993] = OVal (VInt 9007199254740992) /\ eval_nfn FMod [VInt 9007199254740993; VInt 2] = OVal (VFltI 0) /\ fn_exact FMod [VInt 9007199254740993; VInt 2] = XInt 1 /\ nfn_class FRound [VInt 9007199254740993] = 3 /\ nfn_class FAbs [VInt i64_min] = 1.
+Check fn_witnesses : eval_nfn FAbs [VInt i64_min] = ONone /\ fn_exact FAbs [VInt i64_min] = XOver /\ nfn_class FAbs [VInt i64_min] = 1 /\ eval_nfn FDivI [VInt i64_min; VInt (-1)] = ONone /\ fn_exact FDivI [VInt i64_min; VInt (-1)] = XOver /\ eval_nfn FRound [VInt 9007199254740993] = OVal (VInt 9007199254740993) /\ eval_nfn FMod [VInt 9007199254740993; VInt 2] = OVal (VInt 1) /\ fn_exact FMod [VInt 9007199254740993; VInt 2] = XInt 1 /\ nfn_class FRound [VInt 9007199254740993] = 0.
 Check utf8_roundtrip : forall cps, cps_ok cps = true -> decode_utf8 (encode_utf8 cps) = Some cps.
 Check utf8_decode_valid : forall b cps, decode_utf8 b = Some cps -> encode_utf8 cps = b /\ cps_ok cps = true.
 Check utf8_encode_bytes : forall cps, cps_ok cps = true -> bytes_ok (encode_utf8 cps) = true.
@@ -352,41 +371,43 @@ Check utf8_byte_order : forall a b, cps_ok a = true -> cps_ok b = true -> cmp_le
 Check char_length_counts_chars : forall cs, cps_ok cs = true -> eval_sfn SCharLength [VText (encode_utf8 cs)] = OVal (VInt (zlen cs)).
 Check length_counts_bytes : forall cs, cps_ok cs = true -> eval_sfn SLength [VText (encode_utf8 cs)] = OVal (VInt (blen (encode_utf8 cs))) /\ zlen cs <= blen (encode_utf8 cs) /\ (blen (encode_utf8 cs) = zlen cs <-> is_ascii cs = true).
 Check slicing_on_chars : forall cs n, cps_ok cs = true -> eval_sfn SLeft [VText (encode_utf8 cs); VInt n] = OVal (VText (encode_utf8 (if n <? 0 then [] else take_z n cs))) /\ eval_sfn SRight [VText (encode_utf8 cs); VInt n] = OVal (VText (encode_utf8 (if n <? 0 then [] else skip_z (zlen cs - Z.min n (zlen cs)) cs))) /\ eval_sfn SReverse [VText (encode_utf8 cs)] = OVal (VText (encode_utf8 (rev cs))).
-Check substr_on_chars : forall cs pos len, cps_ok cs = true -> pos <> i64_min -> eval_sfn SSubstr [VText (encode_utf8 cs); VInt pos; VInt len] = OVal (VText (encode_utf8 ( if pos =? 0 then [] else let start := if 0 <? pos then pos - 1 else Z.max 0 (zlen cs + pos) in if len <? 0 then [] else take_z len (skip_z start cs)))) /\ eval_sfn SSubstr [VText (encode_utf8 cs); VInt pos] = OVal (VText (encode_utf8 ( if pos =? 0 then [] else skip_z (if 0 <? pos then pos - 1 else Z.max 0 (zlen cs + pos)) cs))).
-Check substr_spec_ok : forall cs pos len, cps_ok cs = true -> pos <> i64_min -> str_obs_ok (str_exact SSubstr [VText (encode_utf8 cs); VInt pos; VInt len]) (eval_sfn SSubstr [VText (encode_utf8 cs); VInt pos; VInt len]) = true /\ str_obs_ok (str_exact SSubstr [VText (encode_utf8 cs); VInt pos]) (eval_sfn SSubstr [VText (encode_utf8 cs); VInt pos]) = true.
-Check instr_byte_offset : forall h n, cps_ok h = true -> cps_ok n = true -> eval_sfn SInstr [VText (encode_utf8 h); VText (encode_utf8 n)] = OVal (VInt (match find_pre n h with Some pre => blen (encode_utf8 pre) + 1 | None => 0 end)).
-Check instr_class0_correct : forall h n, cps_ok h = true -> cps_ok n = true -> sfn_class SInstr [VText (encode_utf8 h); VText (encode_utf8 n)] = 0 -> eval_sfn SInstr [VText (encode_utf8 h); VText (encode_utf8 n)] = OVal (VInt (match find_pre n h with Some pre => zlen pre + 1 | None => 0 end)) /\ str_obs_ok (str_exact SInstr [VText (encode_utf8 h); VText (encode_utf8 n)]) (eval_sfn SInstr [VText (encode_utf8 h); VText (encode_utf8 n)]) = true.
-Check instr_class4_wrong : forall h n, cps_ok h = true -> cps_ok n = true -> sfn_class SInstr [VText (encode_utf8 h); VText (encode_utf8 n)] = 4 -> str_obs_ok (str_exact SInstr [VText (encode_utf8 h); VText (encode_utf8 n)]) (eval_sfn SInstr [VText (encode_utf8 h); VText (encode_utf8 n)]) = false.
+Check substr_on_chars : forall cs pos len, cps_ok cs = true -> eval_sfn SSubstr [VText (encode_utf8 cs); VInt pos; VInt len] = OVal (VText (encode_utf8 ( if pos =? 0 then [] else let start := if 0 <? pos then pos - 1 else Z.max 0 (zlen cs + pos) in if len <? 0 then [] else take_z len (skip_z start cs)))) /\ eval_sfn SSubstr [VText (encode_utf8 cs); VInt pos] = OVal (VText (encode_utf8 ( if pos =? 0 then [] else skip_z (if 0 <? pos then pos - 1 else Z.max 0 (zlen cs + pos)) cs))).
+Check substr_spec_ok : forall cs pos len, cps_ok cs = true -> str_obs_ok (str_exact SSubstr [VText (encode_utf8 cs); VInt pos; VInt len]) (eval_sfn SSubstr [VText (encode_utf8 cs); VInt pos; VInt len]) = true /\ str_obs_ok (str_exact SSubstr [VText (encode_utf8 cs); VInt pos]) (eval_sfn SSubstr [VText (encode_utf8 cs); VInt pos]) = true.
+Check instr_on_chars : forall h n, cps_ok h = true -> cps_ok n = true -> eval_sfn SInstr [VText (encode_utf8 h); VText (encode_utf8 n)] = OVal (VInt (match find_pre n h with Some pre => zlen pre + 1 | None => 0 end)).
+Check instr_spec_ok : forall h n, cps_ok h = true -> cps_ok n = true -> str_obs_ok (str_exact SInstr [VText (encode_utf8 h); VText (encode_utf8 n)]) (eval_sfn SInstr [VText (encode_utf8 h); VText (encode_utf8 n)]) = true.
 Check locate_on_chars : forall n h start, cps_ok n = true -> cps_ok h = true -> eval_sfn SLocate [VText (encode_utf8 n); VText (encode_utf8 h); VInt start] = OVal (VInt (if start <? 1 then 0 else if zlen h <=? start - 1 then 0 else match find_pre n (skip_z (start - 1) h) with Some pre => zlen pre + start | None => 0 end)) /\ eval_sfn SLocate [VText (encode_utf8 n); VText (encode_utf8 h)] = OVal (VInt (if zlen h <=? 0 then 0 else match find_pre n h with Some pre => zlen pre + 1 | None => 0 end)).
 Check locate_spec_ok : forall n h start, cps_ok n = true -> cps_ok h = true -> str_obs_ok (str_exact SLocate [VText (encode_utf8 n); VText (encode_utf8 h); VInt start]) (eval_sfn SLocate [VText (encode_utf8 n); VText (encode_utf8 h); VInt start]) = true /\ str_obs_ok (str_exact SLocate [VText (encode_utf8 n); VText (encode_utf8 h)]) (eval_sfn SLocate [VText (encode_utf8 n); VText (encode_utf8 h)]) = true.
 Check pad_on_chars : forall cs pcs n, cps_ok cs = true -> cps_ok pcs = true -> 0 <= n <= max_model -> (n <= zlen cs -> eval_sfn SLpad [VText (encode_utf8 cs); VInt n; VText (encode_utf8 pcs)] = OVal (VText (encode_utf8 (take_z n cs))) /\ eval_sfn SRpad [VText (encode_utf8 cs); VInt n; VText (encode_utf8 pcs)] = OVal (VText (encode_utf8 (take_z n cs)))) /\ (zlen cs < n -> pcs <> [] -> eval_sfn SLpad [VText (encode_utf8 cs); VInt n; VText (encode_utf8 pcs)] = OVal (VText (encode_utf8 (cycle pcs (n - zlen cs) ++ cs))) /\ eval_sfn SRpad [VText (encode_utf8 cs); VInt n; VText (encode_utf8 pcs)] = OVal (VText (encode_utf8 (cs ++ cycle pcs (n - zlen cs)))) /\ zlen (cycle pcs (n - zlen cs) ++ cs) = n /\ zlen (cs ++ cycle pcs (n - zlen cs)) = n).
+Check pad_negative_null : forall s p n, n < 0 -> eval_sfn SLpad [VText s; VInt n; VText p] = OVal VNull /\ eval_sfn SRpad [VText s; VInt n; VText p] = OVal VNull.
 Check trim_on_chars : forall cs, cps_ok cs = true -> eval_sfn STrim [VText (encode_utf8 cs)] = OVal (VText (encode_utf8 (trim_by is_ws cs))) /\ eval_sfn SLtrim [VText (encode_utf8 cs)] = OVal (VText (encode_utf8 (trim_start_by is_ws cs))) /\ eval_sfn SRtrim [VText (encode_utf8 cs)] = OVal (VText (encode_utf8 (trim_end_by is_ws cs))).
 Check case_ascii : forall cs, is_ascii cs = true -> eval_sfn SUpper [VText (encode_utf8 cs)] = OVal (VText (map ascii_up cs)) /\ eval_sfn SLower [VText (encode_utf8 cs)] = OVal (VText (map ascii_low cs)).
 Check concat_correct : forall a b, eval_sfn SConcat [VText (encode_utf8 a); VText (encode_utf8 b)] = OVal (VText (encode_utf8 (a ++ b))) /\ eval_sfn SConcat [VText (encode_utf8 a); VNull] = OVal VNull /\ eval_sfn SConcat [VNull; VText (encode_utf8 b)] = OVal VNull.
 Check strcmp_code_point_order : forall a b, cps_ok a = true -> cps_ok b = true -> eval_sfn SStrcmp [VText (encode_utf8 a); VText (encode_utf8 b)] = OVal (VInt (cmp_lex a b)).
-Check str_null_in_null_out : forall s n p, to_sql (eval_sfn SLength [VNull]) = OVal VNull /\ to_sql (eval_sfn SCharLength [VNull]) = OVal VNull /\ to_sql (eval_sfn SReverse [VNull]) = OVal VNull /\ to_sql (eval_sfn SUpper [VNull]) = OVal VNull /\ to_sql (eval_sfn SLeft [VNull; VInt n]) = OVal VNull /\ to_sql (eval_sfn SLeft [VText s; VNull]) = OVal VNull /\ to_sql (eval_sfn SRight [VNull; VInt n]) = OVal VNull /\ to_sql (eval_sfn SRight [VText s; VNull]) = OVal VNull /\ to_sql (eval_sfn SSubstr [VNull; VInt n]) = OVal VNull /\ to_sql (eval_sfn SSubstr [VText s; VNull]) = OVal VNull /\ to_sql (eval_sfn SInstr [VNull; VText p]) = OVal VNull /\ to_sql (eval_sfn SInstr [VText s; VNull]) = OVal VNull /\ to_sql (eval_sfn SLocate [VNull; VText p]) = OVal VNull /\ to_sql (eval_sfn SLocate [VText s; VNull]) = OVal VNull /\ to_sql (eval_sfn SLpad [VNull; VInt n; VText p]) = OVal VNull /\ to_sql (eval_sfn SLpad [VText s; VNull; VText p]) = OVal VNull /\ to_sql (eval_sfn SLpad [VText s; VInt n; VNull]) = OVal VNull /\ to_sql (eval_sfn SRpad [VText s; VInt n; VNull]) = OVal VNull /\ to_sql (eval_sfn SRepeat [VNull; VInt n]) = OVal VNull /\ to_sql (eval_sfn SRepeat [VText s; VNull]) = OVal VNull /\ to_sql (eval_sfn STrim [VNull]) = OVal VNull /\ to_sql (eval_sfn SStrcmp [VText s; VNull]) = OVal VNull.
-Check str_refuted : eval_sfn SInstr [VText [195; 169; 97]; VText [97]] = OVal (VInt 3) /\ str_exact SInstr [VText [195; 169; 97]; VText [97]] = SInt 2 /\ sfn_class SInstr [VText [195; 169; 97]; VText [97]] = 4 /\ eval_sfn SSubstr [VText [97; 98; 99]; VInt i64_min] = OPanic /\ sfn_class SSubstr [VText [97; 98; 99]; VInt i64_min] = 5 /\ eval_sfn SLpad [VText [97]; VInt (-1); VText [120]] = OPanic /\ sfn_class SLpad [VText [97]; VInt (-1); VText [120]] = 6 /\ eval_sfn SSubstr [VText [97; 98; 99]; VInt 2; VNull] = OVal (VText [98; 99]) /\ str_exact SSubstr [VText [97; 98; 99]; VInt 2; VNull] = SNull /\ sfn_class SSubstr [VText [97; 98; 99]; VInt 2; VNull] = 7.
+Check str_null_in_null_out : forall s n p, to_sql (eval_sfn SLength [VNull]) = OVal VNull /\ to_sql (eval_sfn SCharLength [VNull]) = OVal VNull /\ to_sql (eval_sfn SReverse [VNull]) = OVal VNull /\ to_sql (eval_sfn SUpper [VNull]) = OVal VNull /\ to_sql (eval_sfn SLeft [VNull; VInt n]) = OVal VNull /\ to_sql (eval_sfn SLeft [VText s; VNull]) = OVal VNull /\ to_sql (eval_sfn SRight [VNull; VInt n]) = OVal VNull /\ to_sql (eval_sfn SRight [VText s; VNull]) = OVal VNull /\ to_sql (eval_sfn SSubstr [VNull; VInt n]) = OVal VNull /\ to_sql (eval_sfn SSubstr [VText s; VNull]) = OVal VNull /\ to_sql (eval_sfn SInstr [VNull; VText p]) = OVal VNull /\ to_sql (eval_sfn SInstr [VText s; VNull]) = OVal VNull /\ to_sql (eval_sfn SLocate [VNull; VText p]) = OVal VNull /\ to_sql (eval_sfn SLocate [VText s; VNull]) = OVal VNull /\ to_sql (eval_sfn SLpad [VNull; VInt n; VText p]) = OVal VNull /\ to_sql (eval_sfn SLpad [VText s; VNull; VText p]) = OVal VNull /\ to_sql (eval_sfn SLpad [VText s; VInt n; VNull]) = OVal VNull /\ to_sql (eval_sfn SRpad [VText s; VInt n; VNull]) = OVal VNull /\ to_sql (eval_sfn SRepeat [VNull; VInt n]) = OVal VNull /\ to_sql (eval_sfn SRepeat [VText s; VNull]) = OVal VNull /\ to_sql (eval_sfn STrim [VNull]) = OVal VNull /\ to_sql (eval_sfn SStrcmp [VText s; VNull]) = OVal VNull /\ to_sql (eval_sfn SSubstr [VText s; VInt n; VNull]) = OVal VNull /\ to_sql (eval_sfn SLocate [VText p; VText s; VNull]) = OVal VNull.
+Check str_witnesses : eval_sfn SInstr [VText [195; 169; 97]; VText [97]] = OVal (VInt 2) /\ str_exact SInstr [VText [195; 169; 97]; VText [97]] = SInt 2 /\ eval_sfn SSubstr [VText [97; 98; 99]; VInt i64_min] = OVal (VText [97; 98; 99]) /\ eval_sfn SLpad [VText [97]; VInt (-1); VText [120]] = OVal VNull /\ eval_sfn SRpad [VText [97]; VInt (-1); VText [120]] = OVal VNull /\ eval_sfn SSubstr [VText [97; 98; 99]; VInt 2; VNull] = ONone /\ str_exact SSubstr [VText [97; 98; 99]; VInt 2; VNull] = SNull.
 Check date_fields : forall y m d, real_date y m d = true -> eval_dfn DYear [DDate y m d] = OVal (VInt y) /\ eval_dfn DMonth [DDate y m d] = OVal (VInt m) /\ eval_dfn DDay [DDate y m d] = OVal (VInt d).
 Check date_calendar : forall y m d, real_date y m d = true -> eval_dfn DDayOfWeek [DDate y m d] = OVal (VInt (weekday y m d + 1)) /\ eval_dfn DDayOfYear [DDate y m d] = OVal (VInt (ordinal_day y m d)) /\ eval_dfn DToDays [DDate y m d] = OVal (VInt (rata_die y m d + 1)) /\ eval_dfn DLastDay [DDate y m d] = OVal (VText (fmt_date y m (dim y m))).
 Check datediff_correct : forall y1 m1 d1 y2 m2 d2, real_date y1 m1 d1 = true -> real_date y2 m2 d2 = true -> eval_dfn DDateDiff [DDate y1 m1 d1; DDate y2 m2 d2] = OVal (VInt (rata_die y1 m1 d1 - rata_die y2 m2 d2)).
 Check date_add_correct : forall y m d y' m' d', real_date y m d = true -> real_date y' m' d' = true -> eval_dfn DDateAdd [DDate y m d; DNum (rata_die y' m' d' - rata_die y m d)] = OVal (VText (fmt_date y' m' d')) /\ eval_dfn DDateSub [DDate y m d; DNum (rata_die y m d - rata_die y' m' d')] = OVal (VText (fmt_date y' m' d')).
 Check from_days_inverts_to_days : forall y m d, real_date y m d = true -> eval_dfn DFromDays [DNum (rata_die y m d + 1)] = OVal (VText (fmt_date y m d)).
 Check date_null_in_null_out : forall f rest, to_sql (eval_dfn f (DNullA :: rest)) = OVal VNull.
-Check date_refuted : eval_dfn DDateAdd [DDate 2024 1 1; DNum i64_max] = OPanic /\ dfn_class DDateAdd [DDate 2024 1 1; DNum i64_max] = 8 /\ eval_dfn DFromDays [DNum i64_max] = OPanic /\ dfn_class DFromDays [DNum i64_max] = 8 /\ eval_dfn DDateSub [DDate 2024 1 1; DNum 92233720368547758] = OPanic.
+Check date_out_of_range_null : forall y m d k n, fields_ok y m d = true -> (in_i64 (CalFunc.date_to_days y m d + k) && day_number_ok (CalFunc.date_to_days y m d + k) = false -> eval_dfn DDateAdd [DDate y m d; DNum k] = OVal VNull) /\ (in_i64 (CalFunc.date_to_days y m d - k) && day_number_ok (CalFunc.date_to_days y m d - k) = false -> eval_dfn DDateSub [DDate y m d; DNum k] = OVal VNull) /\ (day_number_ok n = false -> eval_dfn DFromDays [DNum n] = OVal VNull).
+Check date_witnesses : eval_dfn DDateAdd [DDate 2024 1 1; DNum i64_max] = OVal VNull /\ eval_dfn DFromDays [DNum i64_max] = OVal VNull /\ eval_dfn DFromDays [DNum 92233720368547758] = OVal VNull /\ eval_dfn DDateSub [DDate 2024 1 1; DNum 92233720368547758] = OVal VNull /\ eval_dfn DFromDays [DNum 0] = OVal VNull /\ eval_dfn DFromDays [DNum 3652060] = OVal VNull /\ eval_dfn DFromDays [DNum 3652059] = OVal (VText (fmt_date 9999 12 31)) /\ eval_dfn DFromDays [DNum 1] = OVal (VText (fmt_date 1 1 1)).
 Check cast_roundtrip : forall n, in_i64 n = true -> parse_i64 (to_string_i64 n) = Some n.
 Check cast_correct : forall n, in_i64 n = true -> eval_cast KInt (VInt n) = OVal (VInt n) /\ eval_cast KText (VInt n) = OVal (VText (to_string_i64 n)) /\ eval_cast KInt (VText (to_string_i64 n)) = OVal (VInt n) /\ eval_cast KIntOfText (VInt n) = OVal (VInt n) /\ eval_cast KBool (VInt n) = OVal (VInt (if n =? 0 then 0 else 1)) /\ eval_cast KInt VNull = OVal VNull /\ eval_cast KText VNull = OVal VNull /\ eval_cast KBool VNull = OVal VNull.
 
 Print Assumptions arith_in_range_correct.
 Print Assumptions arith_null.
+Print Assumptions arith_never_panics.
 Print Assumptions arith_class0_ok.
 Print Assumptions div_zero_null.
-Print Assumptions arith_no_panic_refuted.
-Print Assumptions pow_exponent_truncated.
+Print Assumptions arith_overflow_shows_null.
+Print Assumptions arith_witnesses.
 Print Assumptions unary_fn_correct.
 Print Assumptions mod_div_correct.
 Print Assumptions greatest_least_correct.
 Print Assumptions fn_null.
-Print Assumptions fn_refuted.
+Print Assumptions fn_witnesses.
 Print Assumptions utf8_roundtrip.
 Print Assumptions utf8_decode_valid.
 Print Assumptions utf8_encode_bytes.
@@ -397,24 +418,25 @@ Print Assumptions length_counts_bytes.
 Print Assumptions slicing_on_chars.
 Print Assumptions substr_on_chars.
 Print Assumptions substr_spec_ok.
-Print Assumptions instr_byte_offset.
-Print Assumptions instr_class0_correct.
-Print Assumptions instr_class4_wrong.
+Print Assumptions instr_on_chars.
+Print Assumptions instr_spec_ok.
 Print Assumptions locate_on_chars.
 Print Assumptions locate_spec_ok.
 Print Assumptions pad_on_chars.
+Print Assumptions pad_negative_null.
 Print Assumptions trim_on_chars.
 Print Assumptions case_ascii.
 Print Assumptions concat_correct.
 Print Assumptions strcmp_code_point_order.
 Print Assumptions str_null_in_null_out.
-Print Assumptions str_refuted.
+Print Assumptions str_witnesses.
 Print Assumptions date_fields.
 Print Assumptions date_calendar.
 Print Assumptions datediff_correct.
 Print Assumptions date_add_correct.
 Print Assumptions from_days_inverts_to_days.
 Print Assumptions date_null_in_null_out.
-Print Assumptions date_refuted.
+Print Assumptions date_out_of_range_null.
+Print Assumptions date_witnesses.
 Print Assumptions cast_roundtrip.
 Print Assumptions cast_correct.
